@@ -37,6 +37,19 @@ def subharnesses(tier):
                                           sorted(lim.items())),
                         ''.join(aff), g1.ptag(pl))
                     subs.append((name, spec))
+    for topo in ('T1', 'T2'):
+        for pl in [(0, 0, None), (0, 1, None), (0, None, None), (0, 0, 1)]:
+            for st, extra in (('down', {}), ('frozen', {'unschedule': True}),
+                              ('down', {'blacklisted': True})):
+                apps = [dict({'place': j, 'aff': 'x', 'retention': 'sym',
+                              'limits': {'server': 2, 'rack': 2, 'cell': 3}},
+                             **(extra if i == 0 else {}))
+                        for i, j in enumerate(pl)]
+                spec = {'topo': topo, 'D': 1,
+                        'servers': [{'state': st}, {}],
+                        'apps': apps, 'event': ['none']}
+                subs.append(('%s-inactive-%s-%s-%s' % (
+                    topo, st, '_'.join(extra) or 'plain', g1.ptag(pl)), spec))
     return subs
 
 
